@@ -4,6 +4,7 @@ import (
 	"encoding/base64"
 	"encoding/json"
 	"fmt"
+	"strings"
 	"time"
 )
 
@@ -78,4 +79,70 @@ func suiteCodec(r *Rng, n int, thorough bool, o *Out) {
 	}
 }
 
-func init() { suites["codec"] = suiteCodec }
+// emitJSONText: the bytes encoding/json wrote against the model's byte-level rendering of
+// the tree the harness's reader made of them, and the model's parser on the real bytes.
+func emitJSONText(o *Out, out []byte, treeSx string, tree *jnode) {
+	if tree == nil || strings.HasPrefix(treeSx, "duplicate") || strings.HasPrefix(treeSx, "invalid") {
+		return
+	}
+	o.emit(lst("json", "text", treeSx), lst(hx(string(out)), "ok"), "na")
+	o.emit(lst("json", "parse", hx(string(out)), treeSx), "same-tree", "na")
+}
+
+var jsonStrPool = []string{"", "a", "\"", "\\", "a\"b\\c", "\n\r\t\b\f", "\x00\x01\x1f", "<>&", "\x7f", "\u2028", "\u2029x", "é", "日本", "\U0001F600", "</script>", "a\u2028b\u2029", "\xe2\x80", "{}", "[1,2]", "null", " ", "/"}
+
+func genJSONValue(r *Rng, depth int) any {
+	switch k := r.IntN(9); {
+	case k == 0:
+		return nil
+	case k == 1:
+		return r.bool()
+	case k == 2:
+		return []any{int64(0), int64(-1), int64(r.IntN(100000)), -int64(r.IntN(1 << 40)), uint64(1<<63 + 5)}[r.IntN(5)]
+	case k == 3:
+		return []float64{0.5, -1.25, 1e21, 1e-7, 1e20, 123456.789, 3}[r.IntN(7)]
+	case k <= 5 || depth <= 0:
+		s := jsonStrPool[r.IntN(len(jsonStrPool))]
+		if r.chance(1, 4) {
+			s += jsonStrPool[r.IntN(len(jsonStrPool))]
+		}
+		return utf8ify(s)
+	case k == 6:
+		n := r.IntN(4)
+		l := make([]any, n)
+		for i := range l {
+			l[i] = genJSONValue(r, depth-1)
+		}
+		return l
+	default:
+		n := r.IntN(4)
+		m := map[string]any{}
+		for i := 0; i < n; i++ {
+			m[utf8ify(jsonStrPool[r.IntN(len(jsonStrPool))]).(string)] = genJSONValue(r, depth-1)
+		}
+		return m
+	}
+}
+
+// the `jsontext` suite (C03): encoding/json's bytes for random value trees full of
+// escape-worthy strings against the model's rendering and parser.
+func suiteJSONText(r *Rng, n int, thorough bool, o *Out) {
+	for c := 0; c < n; c++ {
+		v := genJSONValue(r, 3)
+		out, err := json.Marshal(v)
+		if err != nil {
+			continue
+		}
+		obs, tree := jsonSx(out)
+		if tree == nil {
+			o.emit(lst("json", "text", "null"), "invalid", "FAIL[C03]:C03 encoding/json wrote bytes the harness's reader rejects")
+			continue
+		}
+		emitJSONText(o, out, obs, tree)
+	}
+}
+
+func init() {
+	suites["codec"] = suiteCodec
+	suites["jsontext"] = suiteJSONText
+}
